@@ -24,9 +24,10 @@ import Driver.CodeOps
 import Driver.HtmlTokOps
 import Driver.MetaOps
 import Driver.InstanceXOps
+import Driver.LegacyOps
 
 namespace Driver
 
-def handlers : List Handler := [registryHandler, dispatchHandler, normalizeHandler, tablesHandler, blockHandler, threadsHandler, tocHandler, serializerHandler, codeHandler, pyHandler, inlineHandler, triggerHandler, extractEvHandler, attrListHandler, pipelineHandler, configHandler, codecHandler, blockExtHandler, docHandler, pipelineXHandler, htmlTokHandler, metaHandler, instanceXHandler]
+def handlers : List Handler := [registryHandler, dispatchHandler, normalizeHandler, tablesHandler, blockHandler, threadsHandler, tocHandler, serializerHandler, codeHandler, pyHandler, inlineHandler, triggerHandler, extractEvHandler, attrListHandler, pipelineHandler, configHandler, codecHandler, blockExtHandler, docHandler, pipelineXHandler, htmlTokHandler, metaHandler, instanceXHandler, legacyHandler]
 
 end Driver
